@@ -137,3 +137,15 @@ pub fn begin_case(case: &str) {
 pub fn end_case() {
     STARTED_MS.store(0, Ordering::SeqCst);
 }
+
+/// truncate for messages, on a char boundary
+pub fn trunc(s: &str, n: usize) -> &str {
+    if s.len() <= n {
+        return s;
+    }
+    let mut k = n;
+    while !s.is_char_boundary(k) {
+        k -= 1;
+    }
+    &s[..k]
+}
